@@ -99,6 +99,20 @@ fn relation(signer: &Name, owner: &Name, pz_origin: &Name) -> &'static str {
     }
 }
 
+/// Key of a panic: source file and a slug of the message. The line number is left out on purpose:
+/// every unrelated edit further up in the same file would change the key.
+pub fn panic_key(prefix: &str, loc: &str, msg: &str) -> String {
+    let file = loc.rsplit_once(':').map(|x| x.0).unwrap_or(loc);
+    let slug: String = msg.chars().take(48).map(|c| if c.is_ascii_alphanumeric() { c } else { '-' }).collect();
+    let mut out = String::new();
+    for c in slug.chars() {
+        if !(c == '-' && out.ends_with('-')) {
+            out.push(c);
+        }
+    }
+    format!("{prefix}:{file}:{}", out.trim_matches('-'))
+}
+
 #[derive(Clone, Debug, PartialEq, Eq, PartialOrd, Ord)]
 pub struct Finding {
     /// oracle clause incl. the abstract scene of the offending record (no fault information)
@@ -118,7 +132,7 @@ pub fn judge(hier: &Hier, q: &(Name, RecordType), honest_answer: &Message, out: 
     let mut j = Judged { findings: vec![], obs: vec![], class: String::new() };
     let (rcode, recs) = match out {
         Outcome::Panic(loc, msg) => {
-            j.findings.push(Finding { clause: format!("panic:{loc}"), what: format!("the validator panicked instead of returning an error/Bogus: {msg}") });
+            j.findings.push(Finding { clause: panic_key("panic", loc, msg), what: format!("the validator panicked at {loc} instead of returning an error/Bogus: {msg}") });
             j.class = "panic".into();
             return j;
         }
